@@ -584,6 +584,43 @@ func (v *Verifier) verifyFunctionFixed(fn *ssa.Function, unrollAll int, fixLen m
 			}
 			u.facts = append(u.facts, t)
 		}
+		// explicit lemma instances over the parameters
+		for _, ui := range c.UseInst {
+			call, ok := ui.E.(*ECall)
+			l := v.lib.Lemmas[""]
+			if ok {
+				l = v.lib.Lemmas[call.Fun]
+			}
+			if !ok || l == nil || len(call.Args) != len(l.Params) {
+				u.errs = append(u.errs, fmt.Sprintf("%s: uses %s: unknown lemma or wrong arity (contract.attach)", ui.Where, ui.Src))
+				continue
+			}
+			lenv, lvars := v.lib.paramEnv(l.Params, "", true)
+			stmt, err := lenv.evalBool(l.Stmt)
+			if err != nil {
+				u.errs = append(u.errs, fmt.Sprintf("%s: uses %s: %v", ui.Where, ui.Src, err))
+				continue
+			}
+			m := map[*Term]*Term{}
+			k := 0
+			bad := false
+			for i, p := range l.Params {
+				cv, err := env.safeEval(call.Args[i])
+				if err != nil {
+					u.errs = append(u.errs, fmt.Sprintf("%s: uses %s: %v (contract.attach)", ui.Where, ui.Src, err))
+					bad = true
+					break
+				}
+				ts := env.coerceTo(cv, p.Type)
+				for _, t := range ts {
+					m[lvars[k]] = t
+					k++
+				}
+			}
+			if !bad {
+				u.facts = append(u.facts, Subst(stmt, m))
+			}
+		}
 		// vacuity: the precondition must be satisfiable
 		u.covers = append(u.covers, &Obligation{Name: u.name + "#cover.requires", Kind: "cover", Fn: u.name, Hyps: append([]*Term{}, u.facts...), Goal: False, Cover: true, Unit: u, Opaque: u.opaque, Fuel: u.fuel})
 	}
@@ -1297,7 +1334,8 @@ func (fr *Frame) loopWrites(l *Loop, env map[ssa.Value]*Val) *loopWriteInfo {
 				}
 				root(x.Addr, map[ssa.Value]bool{})
 			case *ssa.MapUpdate:
-				w.kinds["map"] = true
+				w.kinds["int"] = true // ghost size cell of the map object
+				root(x.Map, map[ssa.Value]bool{})
 			case *ssa.Alloc, *ssa.MakeSlice, *ssa.MakeMap, *ssa.MakeInterface, *ssa.MakeClosure:
 				w.allocs = true
 			case *ssa.BinOp:
@@ -1342,7 +1380,8 @@ func (fr *Frame) callWrites(x *ssa.Call, l *Loop, w *loopWriteInfo, root func(ss
 			}
 			root(x.Call.Args[0], map[ssa.Value]bool{})
 		case "delete":
-			w.kinds["map"] = true
+			w.kinds["int"] = true
+			root(x.Call.Args[0], map[ssa.Value]bool{})
 		}
 		return
 	}
